@@ -266,6 +266,14 @@ class Check:
     sys.exit(code)
 
 
+def known_keys(prop):
+  """keys of the listed known findings of a property (read-only)"""
+  try:
+    return {f['key'] for f in json.load(open(KNOWN)).get('findings', []) if f['property'] == prop}
+  except Exception:
+    return set()
+
+
 # ---------------------------------------------------------------------------
 # a single property query
 # ---------------------------------------------------------------------------
